@@ -266,10 +266,13 @@ def gen_recipe(rng, n, depth, signed, regs, plain=False):
 # building through amoco's operator API
 # ------------------------------------------------------------------------------------------
 class Builder:
-    def __init__(self, signed):
+    def __init__(self, signed, raw=False):
+        """raw: binary / unary / constant-shift nodes are made with the node constructors (op, uop) instead of the
+        operator API, so that they reach simplify() un-simplified"""
         from amoco.cas import expressions as E
         self.E = E
         self.signed = signed
+        self.raw = raw
         self.regs = {}
 
     def reg(self, name, n):
@@ -302,6 +305,8 @@ class Builder:
                         x.signed()
                     else:
                         x.unsigned()
+            if self.raw and s not in ("**", "/", "%"):
+                return E.op({".>>": E.OP_ASR, "<.": E.OP_LTU, ">=.": E.OP_GEU}.get(s, s), a, b)
             return {"+": lambda: a + b, "-": lambda: a - b, "*": lambda: a * b, "&": lambda: a & b, "|": lambda: a | b,
                     "^": lambda: a ^ b, "<<": lambda: a << b, ">>": lambda: a >> b, ".>>": lambda: a // b,
                     "==": lambda: a == b, "!=": lambda: a != b, "<": lambda: a < b, "<=": lambda: a <= b,
@@ -309,12 +314,16 @@ class Builder:
                     ">=.": lambda: E.oper(E.OP_GEU, a, b), "**": lambda: a ** b, "/": lambda: a / b, "%": lambda: a % b}[s]()
         if k == "shc":
             a = self.build(r[2])
+            if self.raw:
+                return E.op({".>>": E.OP_ASR}.get(r[1], r[1]), a, E.cst(r[3], a.size))
             return {"<<": lambda: a << r[3], ">>": lambda: a >> r[3], ".>>": lambda: a // r[3]}[r[1]]()
         if k == "rot":
             a = self.build(r[2])
             return E.oper(r[1], a, E.cst(r[3], a.size))
         if k == "un":
             a = self.build(r[2])
+            if self.raw:
+                return E.uop(r[1], a)
             return (-a) if r[1] == "-" else (~a)
         if k == "slc":
             a = self.build(r[1])
